@@ -260,6 +260,48 @@ func (e env) hash() string {
 
 func (x *Explorer) key(v ssa.Value, idx int) int { return x.id(v)*8 + idx }
 
+// slotEmpty: for slice values, whether the slice is known to be empty (True) or non-empty (False) on this path. A list
+// that a loop fills is empty exactly on the paths on which that loop ran zero times, so a later loop over the list
+// runs zero times as well — the two trip counts are not independent.
+const slotEmpty = 5
+
+func (a *act) emptiness(e env, v ssa.Value) AV {
+	if c, ok := v.(*ssa.Const); ok && c.Value == nil {
+		return True // nil slice
+	}
+	if k, ok := a.envKey(v); ok {
+		_ = k
+	}
+	val, _ := e.get(a.x.key(v, slotEmpty))
+	return val
+}
+
+// nonNegativeCounter: the index expression of a range/for loop that starts at 0: phi(-1, …)+1 or phi(0, …).
+func nonNegativeCounter(v ssa.Value) bool {
+	isConst := func(x ssa.Value, n int64) bool {
+		c, ok := x.(*ssa.Const)
+		return ok && c.Value != nil && c.Int64() == n
+	}
+	if bo, ok := v.(*ssa.BinOp); ok && bo.Op == token.ADD && isConst(bo.Y, 1) {
+		if ph, ok := bo.X.(*ssa.Phi); ok {
+			for _, ed := range ph.Edges {
+				if isConst(ed, -1) {
+					return true
+				}
+			}
+		}
+		return false
+	}
+	if ph, ok := v.(*ssa.Phi); ok {
+		for _, ed := range ph.Edges {
+			if isConst(ed, 0) {
+				return true
+			}
+		}
+	}
+	return false
+}
+
 // Run explores fn as an entry point and returns its outcomes.
 func (x *Explorer) Run(fn *ssa.Function, st uint64) []Outcome {
 	if p := pkgOf(fn); p != nil && p.Path() == typesPath && strings.HasPrefix(fn.Name(), "Validate") {
@@ -324,7 +366,7 @@ func (a *act) block(b, pred *ssa.BasicBlock, e env, st uint64) {
 			}
 		}
 		// evaluate all phis against the incoming env (parallel assignment)
-		var vals []AV
+		var vals, empties []AV
 		var phis []*ssa.Phi
 		for _, in := range b.Instrs {
 			ph, ok := in.(*ssa.Phi)
@@ -334,12 +376,17 @@ func (a *act) block(b, pred *ssa.BasicBlock, e env, st uint64) {
 			phis = append(phis, ph)
 			if pi >= 0 {
 				vals = append(vals, a.eval(e, ph.Edges[pi]))
+				empties = append(empties, a.emptiness(e, ph.Edges[pi]))
 			} else {
 				vals = append(vals, Unknown)
+				empties = append(empties, Unknown)
 			}
 		}
 		for i, ph := range phis {
 			e = e.set(x.key(ph, 0), vals[i])
+			if _, isSlice := ph.Type().Underlying().(*types.Slice); isSlice {
+				e = e.set(x.key(ph, slotEmpty), empties[i])
+			}
 			if x.TrackPhi && pi >= 0 && trackablePhi(a.fr.Fn, ph) {
 				e = e.set(x.key(ph, 7), Int(int64(pi)))
 			}
@@ -384,6 +431,10 @@ func (a *act) instrs(b *ssa.BasicBlock, from int, e env, st uint64) {
 			if al, ok := v.Addr.(*ssa.Alloc); ok {
 				e = e.set(x.key(al, 0), a.eval(e, v.Val))
 			}
+		case *ssa.MakeSlice:
+			if c, ok := v.Len.(*ssa.Const); ok && c.Value != nil && c.Int64() == 0 {
+				e = e.set(x.key(v, slotEmpty), True)
+			}
 		case *ssa.TypeAssert:
 			if v.CommaOk {
 				okv := x.Rule.ValueOf(x, a.fr, v)
@@ -402,6 +453,26 @@ func (a *act) instrs(b *ssa.BasicBlock, from int, e env, st uint64) {
 				if x.TrackPhi && br.ret != nil && !x.W.isGenerated(br.ret.Parent()) {
 					// (generated getters keep their joined result: their nil-receiver branch is not a real path)
 					ne = ne.set(x.key(v, 7), Int(int64(br.ret.Block().Index)))
+				}
+				if bi, isBI := v.Call.Value.(*ssa.Builtin); isBI {
+					switch {
+					case bi.Name() == "append" && len(v.Call.Args) == 2:
+						em := a.emptiness(e, v.Call.Args[0])
+						if sl, ok := v.Call.Args[1].(*ssa.Slice); ok {
+							if al, ok := sl.X.(*ssa.Alloc); ok {
+								if pt, ok := al.Type().Underlying().(*types.Pointer); ok {
+									if arr, ok := pt.Elem().Underlying().(*types.Array); ok && arr.Len() >= 1 && sl.Low == nil && sl.High == nil {
+										em = False // at least one value is appended
+									}
+								}
+							}
+						} else if em.K == avTrue {
+							em = a.emptiness(e, v.Call.Args[1]) // append(empty, other...)
+						}
+						ne = ne.set(x.key(v, slotEmpty), em)
+					case bi.Name() == "len" && len(v.Call.Args) == 1 && a.emptiness(e, v.Call.Args[0]).K == avTrue:
+						br.vals = []AV{Int(0)}
+					}
 				}
 				if len(br.vals) == 1 {
 					ne = ne.set(x.key(v, 0), br.vals[0])
@@ -769,6 +840,9 @@ func (a *act) eval(e env, v ssa.Value) AV {
 				return res
 			}
 		case token.LSS, token.LEQ, token.GTR, token.GEQ:
+			if t.Op == token.LSS && r.K == avInt && r.N == 0 && nonNegativeCounter(t.X) {
+				return False // an index is never below the length of an empty list
+			}
 			if l.K == avInt && r.K == avInt {
 				switch t.Op {
 				case token.LSS:
